@@ -1080,7 +1080,7 @@ static void enumerate(bool thorough, Stats& top) {
 	top.set_info("sample_files", (long long) nfiles);
 	size_t nmodels = 0;
 	std::vector<int> clashes = thorough ? std::vector<int>{0, 1, 2, 3, 4} : std::vector<int>{0, 1, 2, 4};
-	std::vector<int> meshes = thorough ? std::vector<int>{0, 1, 2} : std::vector<int>{0, 2};
+	std::vector<int> meshes = thorough ? std::vector<int>{0, 1, 2, 3} : std::vector<int>{0, 2, 3};
 	for (int ver = 0; ver < 2; ver++)
 		for (int skin = 0; skin < 5; skin++)
 			for (int kind = 0; kind < 4; kind++)
@@ -1089,6 +1089,8 @@ static void enumerate(bool thorough, Stats& top) {
 						for (int clash : clashes)
 							for (int shader = 0; shader < 2; shader++)
 								for (int mesh : meshes) {
+									// the 85-bone mesh only in the plain variants (its point is the bone-limit split)
+									if (mesh == 3 && (kind != 0 || col != 0 || msn != 0 || clash != 0 || shader != 0 || skin == 0)) continue;
 									Recipe r;
 									r.ver = ver;
 									r.skin = skin;
